@@ -183,8 +183,8 @@ def reachable (F : Forest) (root : Nat) : List Bool :=
 /-- `Forest.ambiguities`: reachable ambiguity nodes with more than one
 alternative, each counted once. -/
 def ambiguities (F : Forest) (root : Nat) : Nat :=
-  ((List.range F.length).filter (fun i =>
-    (reachable F root).getD i false && decide (1 < (F.getD i ⟨[]⟩).alts.length))).length
+  let reach := reachable F root
+  ((enumFrom 0 (reach.zip F)).filter (fun x => x.2.1 && decide (1 < x.2.2.alts.length))).length
 
 /-- Well-formed acyclic forest: children point strictly downwards and every
 ambiguity node has at least one alternative. -/
